@@ -118,6 +118,7 @@ func (c *Collection) StartDCPFeed(
 		debug("%s ended backfill", feed)
 		feed.events.push(&sgbucket.FeedEvent{Opcode: sgbucket.FeedOpEndBackfill})
 	}
+	verifPoint("feed.backfill.done", args.ID)
 
 	if args.Dump {
 		feed.events.push(nil) // push an eof
@@ -126,6 +127,7 @@ func (c *Collection) StartDCPFeed(
 		c.bucket.mutex.Lock()
 		c.bucket.collectionFeeds[c.DataStoreNameImpl] = append(c.bucket.collectionFeeds[c.DataStoreNameImpl], feed)
 		c.bucket.mutex.Unlock()
+		verifPoint("feed.registered", args.ID)
 	}
 	go feed.run()
 	return nil
@@ -174,6 +176,7 @@ func (c *Collection) postEvent(event *sgbucket.FeedEvent) {
 	c.bucket.mutex.Lock()
 	feeds := c.bucket.collectionFeeds[c.DataStoreNameImpl]
 	c.bucket.mutex.Unlock()
+	verifPoint("post.snapshot", event.Cas)
 
 	for _, feed := range feeds {
 		if feed != nil {
@@ -265,6 +268,7 @@ func (feed *dcpFeed) run() {
 	if feed.args.Terminator != nil {
 		go func() {
 			<-feed.args.Terminator
+			verifPoint("feed.term", feed.args.ID)
 			debug("%s terminator closed", feed)
 			feed.events.close()
 		}()
@@ -276,6 +280,7 @@ func (feed *dcpFeed) run() {
 
 	for {
 		if event := feed.events.pull(); event != nil {
+			verifPoint("feed.deliver", feed.args.ID, event.Cas)
 			feed.callback(*event)
 			if event.Cas > feed.lastCas {
 				feed.lastCas = event.Cas
@@ -288,6 +293,7 @@ func (feed *dcpFeed) run() {
 		}
 	}
 	debug("%s stopping", feed)
+	verifPoint("feed.exit", feed.args.ID)
 
 	if feed.lastCasChanged {
 		if err := feed.writeCheckpoint(); err != nil {
